@@ -23,4 +23,4 @@ for _p in ["C%02d" % i for i in range(1, 17)]:
     LEVELS[_p] = {"category": "translation_validation",
                   "text": "correspondence of implementation and Coq model plus the extracted specification as oracle; theorems listed in the evidence",
                   "missing": []}
-NOT_APPLICABLE = {"C16": "check under construction in this commit (CLI model and harness land next); will be claimed"}
+NOT_APPLICABLE = {}
